@@ -23,6 +23,15 @@ CHECKS = {
  "C20": dict(level="model_checking", design="4/C20", technique="TLC trace validation (LeaseTrace observers Metrics/List) of get_pool_metrics / get_leases after every step of replayed histories; MC_Lease exhaustive for the store the observers read",
    text="After every step of every replayed history (incl. ticks to expiry-1/expiry/expiry+1 and the empty store) the gauges must equal |expiry>now| and |expiry<=now| for some instant inside the logged call interval and get_leases() must return exactly the stored rows, evaluated by TLC against the follower's table.",
    note="function level (Pool) only so far; the HTTP/JSON rendering is not yet driven"),
+ "C02": dict(level="model_checking", design="4/C02", technique="TLA+ DhcpPolicy (executable transcription of erbium.conf(5)): TLC checks the C02 clauses on the model over an enumerated family and evaluates Allowed(config, request) for every recorded drain of the real handle_pkt (PolicyTrace)",
+   text="TLC exhaustively checks the clauses of C02 on the DhcpPolicy model over a family of configurations x requests, prints each as a case, and then compares, per case, the set of addresses fresh clients can drain from the real loader + handle_pkt (until refusal) with Allowed(config, request) -- both inclusions; default pools of /8../23 prefixes are probed through build_default_config instead of drained.",
+   note="policy trees depth<=3, width<=3; prefixes /8../30; the manual-silent cases are not generated; drains above the limit are inconclusive"),
+ "C11": dict(level="model_checking", design="4/C11", technique="TLA+ DhcpPolicy!ModelOpts evaluated by TLC for every recorded handle_pkt reply (PolicyTrace) + TLC check of the C11 clauses on the model over an enumerated family",
+   text="TLC checks only-requested / null-removes / inner-overrides-outer on the model over an enumerated family, and for each generated (configuration, request) compares the option map of the real reply, projected onto symbolic values by the harness's own RFC encoders, with ModelOpts(config, request).",
+   note="value alphabet of two values + null per option over ten option codes; empty default search list accepted either way"),
+ "C12": dict(level="model_checking", design="4/C12", technique="TLA+ DhcpWire: TLC model-checks the RFC 3396 reference chunking over boundary lengths and validates traces of Dhcp::serialise / dhcppkt::parse / Fragment::new_udp4 / get_broadcast_flag (DhcpWireTrace)",
+   text="TLC enumerates option multisets over the boundary lengths (0,1,2,254..257,509..512,765,1500), proves the reference chunking carries them and refutes the truncating encoder; every case plus random and decoder-image messages is encoded by the real code, walked by an independent TLV walker and decoded again, and TLC checks stream arithmetic, header and option equality; frames: lengths and both one's-complement checksums recomputed by TLC (incl. directed double-carry payloads); broadcast bit for sampled (quick) or all 65536 (thorough) flag values.",
+   note="fidelity decided over projections (walker, splitter, digests) computed by the harness"),
 }
 NOT_APPLICABLE = []
 
